@@ -169,6 +169,8 @@ P31B = P31.__class__(base_uri='http://example.com/base/')
 TB_ = {False: parse_all({'x2j_esc': 'xml-to-json(json-to-xml($t, map{"escape": true()}))', 'x2j': 'xml-to-json(json-to-xml($t))', 'pj': 'parse-json($t)', 'ser': 'serialize(parse-json($t), map{"method": "json"})'}),
        True: parse_all({'x2j_esc': 'xml-to-json(json-to-xml($t, map{"escape": true()}))', 'x2j': 'xml-to-json(json-to-xml($t))', 'pj': 'parse-json($t)', 'ser': 'serialize(parse-json($t), map{"method": "json"})'}, parser=P31B)}
 
+T_X2J_OPTS = tuple(P31.parse('xml-to-json(json-to-xml($t), %s)' % o) for o in ('map{}', 'map{"indent": true()}', 'map{"indent": false()}'))
+
 
 def _py(v):
     """XDM value -> Python JSON value"""
@@ -199,7 +201,7 @@ def _norm(j):
 
 @ob(budget=200, bound='JSON text from a table of 28 (exponent numbers, nulls, empty arrays/objects as members, nested shapes; index chosen by the '
                       'solver) x parser with / without a static base URI: xml-to-json(json-to-xml(t)), parse-json(t) and '
-                      'serialize(parse-json(t), json) all denote the value an independent JSON parser reads from t',
+                      'serialize(parse-json(t), json) and xml-to-json with an options map (empty, indent true / false) all denote the value an independent JSON parser reads from t',
     funcs=['elementpath/xpath31/_xpath31_functions.py:evaluate__xml_to_json', 'elementpath/xpath31/_xpath31_functions.py:evaluate__json_to_xml',
            'elementpath/xpath31/_xpath31_functions.py:evaluate__parse_json', 'elementpath/serialization.py:serialize_to_json'])
 def json_texts_roundtrip(ti: int, base: bool) -> bool:
@@ -217,7 +219,13 @@ def json_texts_roundtrip(ti: int, base: bool) -> bool:
     if _norm(_py(ev(toks['pj'], t=t))) != want:
         return False
     ser = ev(toks['ser'], t=t)
-    return len(ser) == 1 and _norm(_json.loads(ser[0])) == want
+    if len(ser) != 1 or _norm(_json.loads(ser[0])) != want:
+        return False
+    for opt in T_X2J_OPTS:          # (added with the options-map repair: an options map, empty or with indent, changes nothing in the value)
+        back = ev(opt, t=t)
+        if len(back) != 1 or _norm(_json.loads(back[0])) != want:
+            return False
+    return True
 
 
 # --- XML round trip with an XML declaration and apostrophes / quotes in text and attribute values (concrete documents; expat is C code) ----
